@@ -317,7 +317,14 @@ func judgeMode(c callCase, e callExpect, o modeObs, try bool) string {
 	if failed && !loud {
 		return fmt.Sprintf("%s: failed, but not with a TypeError/RangeError the script can recognise: %s", mode, what)
 	}
-	if o.Ran > 1 {
+	reentrant := false // some argument's conversion calls f again: nested activations are expected
+	for _, a := range c.Args {
+		reentrant = reentrant || a.HasReentry()
+	}
+	if reentrant { // callbacks of nested and outer activations interleave: not asserted in these cases
+		e.cbExpect, e.cbMust = nil, false
+	}
+	if o.Ran > 1 && !reentrant {
 		return fmt.Sprintf("%s: the Go function ran %d times", mode, o.Ran)
 	}
 	cbFailed := false
@@ -331,7 +338,7 @@ func judgeMode(c callCase, e callExpect, o modeObs, try bool) string {
 		if !failed {
 			return fmt.Sprintf("%s: must fail loudly (%s) but succeeded; the Go function received %s", mode, strings.Join(e.classes, ","), renderRec(o.Rec))
 		}
-		if o.Ran != 0 {
+		if o.Ran != 0 && !reentrant {
 			return fmt.Sprintf("%s: failed (%s) but the Go function had already run with %s", mode, what, renderRec(o.Rec))
 		}
 		return ""
@@ -344,7 +351,7 @@ func judgeMode(c callCase, e callExpect, o modeObs, try bool) string {
 		}
 		return ""
 	case failed:
-		if o.Ran != 0 {
+		if o.Ran != 0 && !reentrant {
 			return fmt.Sprintf("%s: failed (%s) after the Go function ran with %s", mode, what, renderRec(o.Rec))
 		}
 		if !e.mayFail {
@@ -353,7 +360,7 @@ func judgeMode(c callCase, e callExpect, o modeObs, try bool) string {
 		return ""
 	}
 	// succeeded
-	if o.Ran != 1 {
+	if o.Ran != 1 && !(reentrant && o.Ran >= 1) {
 		return fmt.Sprintf("%s: succeeded but the Go function ran %d times", mode, o.Ran)
 	}
 	if e.cbMust {
@@ -364,7 +371,7 @@ func judgeMode(c callCase, e callExpect, o modeObs, try bool) string {
 			return fmt.Sprintf("%s: calling the function argument from Go gave %q, want %q", mode, r, e.cbExpect[i])
 		}
 	}
-	rec := o.Rec[0]
+	rec := o.Rec[len(o.Rec)-1] // the outer activation runs last, after every conversion (and nested call) is done
 	if len(e.accept) > 0 {
 		okAny := false
 		for _, acc := range e.accept {
